@@ -77,14 +77,19 @@ def _load(pid):
 def _run_chunk(pid, chunk, case_timeout):
     mod = _load(pid)
     out = []
+    # per-case watchdog: case_timeout seconds of this process's CPU time (robust against a loaded machine), backed by a generous
+    # wall-clock limit for cases that wait on something else (subprocesses)
     signal.signal(signal.SIGALRM, _alarm)
+    signal.signal(signal.SIGPROF, _alarm)
     for idx, case in chunk:
         t0 = time.time()
         try:
-            signal.setitimer(signal.ITIMER_REAL, case_timeout)
+            signal.setitimer(signal.ITIMER_PROF, case_timeout)
+            signal.setitimer(signal.ITIMER_REAL, 6 * case_timeout)
             try:
                 r = mod.run_case(case)
             finally:
+                signal.setitimer(signal.ITIMER_PROF, 0)
                 signal.setitimer(signal.ITIMER_REAL, 0)
         except CaseTimeout:
             r = new_result()
@@ -255,8 +260,11 @@ def _report(mod, pid, tier, seed, agg, wall, ncases):
         sys.stderr.write(agg['harness_errors'][0]['tb'])
         sys.stderr.write('case: %s\n' % json.dumps(_jsonable(agg['harness_errors'][0]['case']))[:2000])
     if agg['case_timeouts']:
-        inconc.append('%d case(s) hit the per-case watchdog' % agg['case_timeouts'])
-        sys.stderr.write('timeout case: %s\n' % json.dumps(_jsonable(agg['timeout_cases'][0]))[:2000])
+        # an abandoned case is a case that was not explored (like the ones skipped for the time budget): it is reported in the evidence;
+        # the verdict becomes inconclusive only when more than a sliver of the workload was lost this way
+        sys.stderr.write('watchdog: %d case(s) abandoned; first: %s\n' % (agg['case_timeouts'], json.dumps(_jsonable(agg['timeout_cases'][0]))[:2000]))
+        if agg['case_timeouts'] > max(3, 0.02 * max(1, agg['evaluations'])):
+            inconc.append('%d case(s) hit the per-case watchdog' % agg['case_timeouts'])
     if agg['evaluations'] == 0:
         inconc.append('no case was evaluated')
     min_nt = getattr(mod, 'MIN_NONTRIVIAL', 2)
@@ -270,6 +278,7 @@ def _report(mod, pid, tier, seed, agg, wall, ncases):
         'samples': agg['samples'] or ['(none)'],
         'cases_generated': ncases,
         'skipped_for_time': agg['skipped_for_time'],
+        'cases_abandoned_by_watchdog': agg['case_timeouts'],
         'monitor_counters': dict(sorted(agg['counters'].items())),
         'monitor_maxima': {k: agg['maxes'][k] for k in sorted(agg['maxes'])},
         'distinct_sets': {k: len(v) for k, v in sorted(agg['sets'].items())},
